@@ -603,6 +603,18 @@ v('C05 C04 C13', 'fire', 'error_model.py', _FS_OLD, "        if getattr(self, '_
 # ------------------------------------------------------------------ TAIL-SLICE concat keywords (sixth session)
 v('C02 C01 C09', 'fire', 'strapdown.py', 'self.trajectory = pd.concat([self.trajectory, trajectory])', 'self.trajectory = pd.concat([self.trajectory, trajectory], ignore_index=True)', 'rows renumbered: the time index is lost')
 v('C02 C01 C09', 'silent', 'strapdown.py', 'self.trajectory = pd.concat([self.trajectory, trajectory])', 'self.trajectory = pd.concat([self.trajectory, trajectory], axis=0, copy=False)', 'harmless keywords')
+# ------------------------------------------------------------------ hand-made probes, sixth session
+v('C09 C10', 'fire', 'filters.py', '    measurement_times = np.sort(np.unique(measurement_times))', '    measurement_times = np.unique(np.round(measurement_times, 3))', 'epochs rounded: not elements of the measurement indices any more', every=True)
+v('C09 C10', 'silent', 'filters.py', '    measurement_times = np.sort(np.unique(measurement_times))', '    measurement_times = np.array(sorted(set(measurement_times.tolist())))', 'de-duplicated through a set', every=True)
+v('C04', 'fire', 'error_model.py', '    Phi[:] += np.identity(Phi.shape[-1])', '    Phi[0] += np.identity(Phi.shape[-1])', 'identity added to the first interval only')
+v('C04', 'silent', 'error_model.py', '    Phi[:] += np.identity(Phi.shape[-1])', '    Phi += np.identity(Phi.shape[-1])', 'whole-array update without a slice')
+v('C04', 'fire', 'error_model.py', '    if pva_error is None:\n        pva_error = pd.Series', '    if pva_error is not None:\n        pva_error = pd.Series', 'survey: default installed under the negated test')
+v('C04', 'fire', 'error_model.py', 'pva_error = pd.Series(data=np.zeros(9), index=TRAJECTORY_ERROR_COLS)', 'pva_error = pd.Series(data=np.zeros(9))', 'survey: default initial error without labels')
+v('C04', 'fire', 'error_model.py', 'model_error = pd.DataFrame(data=x, index=trajectory.index,', 'model_error = pd.DataFrame(data=x,', 'survey: result table not stamped with the trajectory times')
+v('C18', 'fire', 'transform.py', '        columns = first.columns.intersection(second.columns)', '        columns = first.columns.union(second.columns)', 'union instead of intersection of the column sets')
+v('C18', 'silent', 'transform.py', '        columns = first.columns.intersection(second.columns)', '        columns = first.columns & second.columns', 'intersection spelled with &')
+v('C01 C02 C15', 'fire', 'strapdown.py', "        theta = np.ascontiguousarray(increments[['theta_x', 'theta_y', 'theta_z']])", "        theta = np.ascontiguousarray(increments[['theta_x', 'theta_y', 'theta_z']], dtype=np.float32)", 'increments narrowed to single precision')
+v('C01 C02', 'silent', 'strapdown.py', "        theta = np.ascontiguousarray(increments[['theta_x', 'theta_y', 'theta_z']])", "        theta = np.ascontiguousarray(increments[['theta_x', 'theta_y', 'theta_z']], dtype=float)", 'explicit double')
 # ------------------------------------------------------------------ geometry C16 C05 C04 C03 C18
 T = 'transform.py'
 v('C16 C05', 'fire', T, '    rn, _, rp = earth.principal_radii(lla[:, 0], lla[:, 2])\n\n    lla[:, 0] +=',
